@@ -53,16 +53,17 @@ func main() {
 	}
 	r := mon.Start("C10", "exploration")
 	r.Rule = "case = (side, configuration, route): encrypt = literal recipient list; stanzas = (stanza kinds in order, position of the passphrase stanza, identity, route); " +
-		"work = (configured maximum, work-factor argument, work factor the stanza was really sealed at, route). non-trivial = the real Encrypt / ScryptIdentity.Unwrap / Decrypt " +
+		"work = (configured maximum, work-factor argument, work factor the stanza was really sealed at, route); history = (route of the earlier successful call, route, same / other identity object, configured maximum, bad step: rewritten argument | lowered maximum | stanza among others). non-trivial = the real Encrypt / ScryptIdentity.Unwrap / Decrypt " +
 		"was executed on it and its result (and, where claimed, its alloc-meter reading) was compared with the model; distinct by that tuple"
 	r.Assumptions = []string{
 		"the CLI route (age -d on a pty, LazyScryptIdentity) is exercised on a small set of reference-built files: no prompt for a non-lone passphrase stanza, clean refusal of over-limit and non-canonical work factors under an address-space limit",
 		"'without deriving a key' is measured only where the avoided derivation is >= 1 MiB (offered or sealed work factor >= 10): TotalAlloc delta < 256 KiB; below that the functional half (no file key although the passphrase is right) decides alone",
+		"histories on one identity value are short (one success, one to eight bad steps, one success) plus seeded 16-step mixtures; longer or differently ordered histories are not explored",
 		"headers have 1..4 stanzas (1..5 in thorough); recipient lists 2..4 (2..5 in thorough)",
 		"over-limit work factors are explored up to 33 plus overflowing decimals; values above 15 (quick) / 18 (thorough) are attached to a stanza sealed at 10 and run in a child under RLIMIT_AS",
 		"acceptance of work factors <= maximum is a control (it shows the passphrase and header are right), not part of the property: a failing control makes the run inconclusive",
 	}
-	r.MinEvals, r.MinDistinct = int64(r.Pick(5000, 60000)), r.Pick(4500, 55000)
+	r.MinEvals, r.MinDistinct = int64(r.Pick(8000, 70000)), r.Pick(7000, 65000)
 	inProcMax = r.Pick(15, 18)
 
 	if n, err := refage.SelfCheck(); err != nil {
@@ -557,14 +558,19 @@ func workSide(r *mon.Run) {
 	}
 
 	// --- in-process, sequential, metered --------------------------------------
-	var maxRejectDelta uint64
 	for _, c := range inproc {
 		o := execute(c.job())
 		judge(r, c, &o, "", &maxRejectDelta)
 	}
 
 	// --- child process ---------------------------------------------------------
-	runChildCases(r, child, &maxRejectDelta)
+	cc := make([]childCase, len(child))
+	for i, c := range child {
+		cc[i] = c
+	}
+	runChildCases(r, "work", cc)
+	// the history side continues on the same single-threaded footing
+	historySide(r, specs)
 	r.Set("max_alloc_delta_on_metered_rejection_bytes", maxRejectDelta)
 	r.Set("reject_threshold_bytes", rejectThreshold)
 }
@@ -687,7 +693,28 @@ func firstLines(s string, n int) string {
 	return strings.Join(l, " | ")
 }
 
-func runChildCases(r *mon.Run, cases []*wfCase, maxRejectDelta *uint64) {
+// childCase is a case executed in the child process.
+type childCase interface {
+	job() *job
+	key() string
+	slow() bool // a broken tree could complete the derivation under the limit (slowly)
+	judge(r *mon.Run, o *outcome, died string) (violated bool)
+}
+
+func (c *wfCase) slow() bool {
+	v, ok := refage.CanonicalWorkFactor(c.s.arg)
+	return ok && v < 20
+}
+
+func (c *wfCase) judge(r *mon.Run, o *outcome, died string) bool {
+	return judge(r, c, o, died, &maxRejectDelta)
+}
+
+// maxRejectDelta is the largest alloc-meter reading seen on a rejection that
+// carried the "no derivation" claim.
+var maxRejectDelta uint64
+
+func runChildCases(r *mon.Run, phase string, cases []childCase) {
 	if len(cases) == 0 {
 		return
 	}
@@ -739,7 +766,7 @@ func runChildCases(r *mon.Run, cases []*wfCase, maxRejectDelta *uint64) {
 	ran := 0
 	for i, c := range cases {
 		cls := "fast"
-		if v, ok := refage.CanonicalWorkFactor(c.s.arg); ok && v < 20 {
+		if c.slow() {
 			cls = "slow"
 		}
 		if violated[cls] >= caps[cls] {
@@ -764,7 +791,7 @@ func runChildCases(r *mon.Run, cases []*wfCase, maxRejectDelta *uint64) {
 		o, err := cp.run(j)
 		switch err {
 		case nil:
-			bad = judge(r, c, o, "", maxRejectDelta)
+			bad = c.judge(r, o, "")
 		case errChildDied:
 			status := cp.wait()
 			stderr := cp.stderr.String()
@@ -784,13 +811,13 @@ func runChildCases(r *mon.Run, cases []*wfCase, maxRejectDelta *uint64) {
 				st2 := c2.wait()
 				r.Count("child_deaths", 1)
 				if oomDeath(c2.stderr.String()) && oomDeath(stderr) {
-					bad = judge(r, c, &outcome{}, fmt.Sprintf("%s\n(%s; again: %s)", stderr, status, st2), maxRejectDelta)
+					bad = c.judge(r, &outcome{}, fmt.Sprintf("%s\n(%s; again: %s)", stderr, status, st2))
 				} else {
 					r.Inconclusive("child died twice on %s (%s / %s) without an out-of-memory report: %s", c.key(), status, st2, firstLines(stderr, 3))
 				}
 			case nil:
 				c2.kill()
-				bad = judge(r, c, o2, "", maxRejectDelta)
+				bad = c.judge(r, o2, "")
 				if !bad {
 					// a death the case does not explain when run alone
 					r.Inconclusive("child died on %s (%s: %s) but the case is handled correctly when repeated alone; journal kept at %s", c.key(), status, firstLines(stderr, 2), jn.path)
@@ -820,5 +847,5 @@ func runChildCases(r *mon.Run, cases []*wfCase, maxRejectDelta *uint64) {
 		}
 	}
 	r.Count("child_cases_run", int64(ran))
-	r.Count("child_cases", int64(len(cases)))
+	r.Count("child_cases_"+phase, int64(len(cases)))
 }
